@@ -104,11 +104,11 @@ public:
 
     void rollback(std::size_t iteration) override
     {
-        // the first pdf is only kept (and serialized) while there are no results; if the checkpoint
-        // was read from a stream get it back from the first result
-        if ((iteration == 0) && pdf_.empty() && !this->results().empty())
+        // the first pdf is only serialized while there are no results; a checkpoint that was read
+        // from a stream does not have it, so always get it back from the first result
+        if ((iteration == 0) && !this->results().empty())
         {
-            pdf_.push_back(this->results().front().pdf());
+            pdf_.assign(1, this->results().front().pdf());
         }
 
         chkpt<vegas_result<T>>::rollback(iteration);
